@@ -794,7 +794,9 @@ func (t *Tarballer) Do() {
 					replacement = rebaseName
 				}
 
-				relFilePath = strings.Replace(relFilePath, include, replacement, 1)
+				if relFilePath == include || strings.HasPrefix(relFilePath, include+string(filepath.Separator)) {
+					relFilePath = replacement + relFilePath[len(include):]
+				}
 			}
 
 			if err := ta.addTarFile(filePath, relFilePath); err != nil {
